@@ -193,7 +193,7 @@ func (f *machoMarkers) PatchSignature(oldHeader []byte, sigSize int64) (newHeade
 		return
 	}
 	sigSize = align(sigSize, alignSegmentFile)
-	if sigStart == 0 {
+	if sigStart == 0 || f.sigLen == 0 {
 		// place signature after the current end of __LINKEDIT
 		sigStart = align(f.codeSize, alignSegmentFile)
 	}
